@@ -9,14 +9,14 @@ ENGINE_OF = {
 
 # fixed run counts per tier (a wall cap exists only as a safety net)
 RUNS = {
-    'C01': {'quick': 3000, 'thorough': 600000},
-    'C02': {'quick': 4000, 'thorough': 800000},
-    'C08': {'quick': 2000, 'thorough': 150000},
-    'C09': {'quick': 8000, 'thorough': 150000},
-    'C11': {'quick': 1500, 'thorough': 250000},
-    'C14': {'quick': 1500, 'thorough': 60000},
-    'C16': {'quick': 3000, 'thorough': 500000},
-    'C20': {'quick': 3000, 'thorough': 300000},
+    'C01': {'quick': 3000, 'thorough': 2000000},
+    'C02': {'quick': 4000, 'thorough': 2000000},
+    'C08': {'quick': 2000, 'thorough': 300000},
+    'C09': {'quick': 8000, 'thorough': 250000},
+    'C11': {'quick': 1500, 'thorough': 800000},
+    'C14': {'quick': 1500, 'thorough': 150000},
+    'C16': {'quick': 3000, 'thorough': 1200000},
+    'C20': {'quick': 3000, 'thorough': 600000},
 }
 WALL_CAP = {'quick': 600, 'thorough': 3000}
 
